@@ -3,10 +3,13 @@
 set -e
 cd "$(dirname "$0")/.."
 export CARGO_NET_OFFLINE=true
-mkdir -p .build evidence
+mkdir -p .build evidence replays
 [ -f harness/Cargo.lock ] || cp /repo/Cargo.lock harness/Cargo.lock
-(cd harness && cargo build --offline -q -p mc_core)
-for p in mc_els mc_seq; do
-  if [ -d harness/$p ]; then (cd harness && cargo build --offline -q -p $p); fi
-done
+[ -f harness_seq/Cargo.lock ] || cp /repo/Cargo.lock harness_seq/Cargo.lock
+# every engine, dev profile (what the checks use), built against /repo's working tree
+(cd harness && cargo build --offline -q --workspace)
+# parser-only engines that the checks run in the release profile
+(cd harness && cargo build --offline -q --release -p mc_parser_rel -p mc_layout)
+# the sequential build of the compiler (C19): a copy of the working tree with the `parallel` default feature emptied
+python3 -c "import sys; sys.path.insert(0, 'py'); import vlib; vlib.build_seq(); vlib.stage_erg_path()"
 echo setup ok
